@@ -583,7 +583,51 @@ def gen_input(rng, C, idx, big=False):
     db.add_define_default("FrUnusedAttr", "3")
     db.add_signal_defines("SigUnusedAttr", "STRING")
     db.add_define_default("SigUnusedAttr", "u")
+    add_interaction_frames(rng, C, db)
     return db
+
+
+def add_interaction_frames(rng, C, db):
+    """three small frames on which later stages of convert() depend on earlier ones (interaction_cases):
+      FGapFrame  8 bytes declared, Intel signals at 16 and 40: gaps for compressFrame, the last signal determines the needed
+                 length (6), declared > needed; the only frame of its sender EGapOnly; the only carrier of FrOnlyAttr, its signal
+                 SGapA the only carrier of SigOnlyAttr
+      FZeroEnd   4 bytes, a zero-width signal at bit 31 is the only thing behind byte 0
+      FShortDecl declared 2 bytes, its signal needs 3"""
+    used = {f.arbitration_id.id for f in db.frames}
+    ids = [i for i in range(0x700, 0x7F0) if all(abs(i - u) > 2 for u in used)]
+    rcv = db.ecus[0].name
+    db.add_ecu(C.Ecu("EGapOnly"))
+    db.add_frame_defines("FrOnlyAttr", "INT 0 100")
+    db.add_define_default("FrOnlyAttr", "1")
+    db.add_signal_defines("SigOnlyAttr", "INT 0 100")
+    db.add_define_default("SigOnlyAttr", "2")
+
+    def sig(name, start, size, receiver=True):
+        sg = C.Signal(name, start_bit=start, size=size, is_little_endian=True, is_signed=False)
+        if size == 0:
+            sg.min, sg.max = 0, 0
+        if receiver:
+            sg.add_receiver(rcv)
+        return sg
+    a, b, c = rng.sample(ids[::6], 3)          # apart from each other: frameIdIncrement x changeFrameId must not collide
+    gap = C.Frame("FGapFrame", arbitration_id=C.ArbitrationId(a, False), size=8)
+    gap.add_transmitter("EGapOnly")
+    gap.add_attribute("FrOnlyAttr", "7")
+    sa = sig("SGapA", 16, 8)
+    sa.add_attribute("SigOnlyAttr", "5")
+    gap.add_signal(sa)
+    gap.add_signal(sig("SGapB", 40, 8))
+    ze = C.Frame("FZeroEnd", arbitration_id=C.ArbitrationId(b, False), size=4)
+    ze.add_transmitter(rcv)
+    ze.add_signal(sig("SZeA", 0, 8))
+    ze.add_signal(sig("SZeroEnd", 31, 0))
+    sh = C.Frame("FShortDecl", arbitration_id=C.ArbitrationId(c, False), size=2)
+    sh.add_transmitter(rcv)
+    sh.add_signal(sig("SShA", 16, 8))
+    for f in (gap, ze, sh):
+        f.update_receiver()
+        db.add_frame(f)
 
 
 # ------------------------------------------------------------------------------------------------------------------
@@ -877,6 +921,72 @@ def pair_args(rng, st, other_path, thorough):
     return d
 
 
+def interaction_cases(st, other_st, other_path):
+    """[(kind, (option, argument) of the EARLIER stage, (option, argument) of the LATER stage)]: for every pair of stages of
+    convert() whose effects can depend on their order, arguments built on this input so that they DO (the later stage addresses
+    what the earlier one creates, removes or resizes).  Uses the frames of add_interaction_frames and the first ordinary frame."""
+    F = [f["name"] for f in frames_in_order(st)]
+    f0 = st["frames"][st["frame_order"][0]]
+    E = [e for e in st["ecus"] if e not in ("EGapOnly", "ERcvOnly") and not e.startswith("EUnused")]
+    e0 = E[0]
+    not_rcv = [f["name"] for f in frames_in_order(st) if f["signals"] and all(e0 not in sg["receivers"] for sg in f["signals"].values())]
+    gap = [f for f in st["frames"].values() if f["name"] == "FGapFrame"][0]
+    sh = [f for f in st["frames"].values() if f["name"] == "FShortDecl"][0]
+    s0 = f0["signal_order"][0] if f0["signal_order"] else "SGapA"
+    nonfd = [f["name"] for f in frames_in_order(st) if not f["is_fd"]][0]
+    cs = []
+    add = lambda kind, a, b: cs.append((kind, a, b))
+    # ECUs
+    add("renameEcu-deleteEcu", ("renameEcu", e0 + ":ENewName"), ("deleteEcu", "ENewName"))
+    if not_rcv:
+        add("renameEcu-addFrameReceiver", ("renameEcu", e0 + ":ENewName"), ("addFrameReceiver", not_rcv[0] + ":" + e0))
+        add("deleteEcu-addFrameReceiver", ("deleteEcu", e0), ("addFrameReceiver", not_rcv[0] + ":" + e0))
+    add("deleteFrame-deleteObsoleteEcus", ("deleteFrame", "FGapFrame"), ("deleteObsoleteEcus", ""))
+    add("skipLongDlc-deleteObsoleteEcus", ("skipLongDlc", "7"), ("deleteObsoleteEcus", ""))
+    # frames by name
+    add("renameFrame-deleteFrame", ("renameFrame", F[0] + ":FNewName"), ("deleteFrame", "FNewName"))
+    add("renameFrame-setFrameFd", ("renameFrame", nonfd + ":FNewName"), ("setFrameFd", "FNewName"))
+    isfd = [f["name"] for f in frames_in_order(st) if f["is_fd"]]
+    if isfd:
+        add("renameFrame-unsetFrameFd", ("renameFrame", isfd[0] + ":FNewName"), ("unsetFrameFd", "FNewName"))
+    add("renameFrame-addFrameReceiver", ("renameFrame", "FGapFrame:FNewName"), ("addFrameReceiver", "FNewName:ENewRcv"))
+    add("renameFrame-compressFrame", ("renameFrame", "FGapFrame:FNewName"), ("compressFrame", "FNewName"))
+    add("setFrameFd-unsetFrameFd", ("setFrameFd", nonfd), ("unsetFrameFd", nonfd))
+    # identifiers
+    add("frameIdIncrement-changeFrameId", ("frameIdIncrement", "1"), ("changeFrameId", "%d:%d" % (gap["id"] + 1, gap["id"] + 2)))
+    # lengths
+    add("skipLongDlc-cutLongFrames", ("skipLongDlc", "7"), ("cutLongFrames", "6"))
+    add("skipLongDlc-recalcDLC", ("skipLongDlc", "6"), ("recalcDLC", "force"))
+    add("cutLongFrames-recalcDLC", ("cutLongFrames", str(sh["size"])), ("recalcDLC", "force"))
+    add("cutLongFrames-deleteObsoleteDefines", ("cutLongFrames", "1"), ("deleteObsoleteDefines", ""))
+    add("deleteSignal-recalcDLC", ("deleteSignal", "SGapB"), ("recalcDLC", "force"))
+    add("deleteZeroSignals-recalcDLC", ("deleteZeroSignals", ""), ("recalcDLC", "force"))
+    add("compressFrame-recalcDLC", ("compressFrame", "FGapFrame"), ("recalcDLC", "force"))
+    add("renameSignal-deleteSignal-last", ("renameSignal", "SGapB:SNewName"), ("deleteSignal", "SNewName"))
+    # signals by name
+    add("renameSignal-deleteSignal", ("renameSignal", s0 + ":SNewName"), ("deleteSignal", "SNewName"))
+    # attributes and definitions
+    add("deleteSignal-deleteObsoleteDefines", ("deleteSignal", "SGapA"), ("deleteObsoleteDefines", ""))
+    add("deleteSignalAttributes-deleteObsoleteDefines", ("deleteSignalAttributes", "SigOnlyAttr"), ("deleteObsoleteDefines", ""))
+    add("deleteFrameAttributes-deleteObsoleteDefines", ("deleteFrameAttributes", "FrOnlyAttr"), ("deleteObsoleteDefines", ""))
+    add("deleteFrame-deleteObsoleteDefines", ("deleteFrame", "FGapFrame"), ("deleteObsoleteDefines", ""))
+    add("deleteEcu-deleteObsoleteDefines", ("deleteEcu", ",".join(e for e in st["ecus"] if st["ecus"][e]["attributes"])), ("deleteObsoleteDefines", ""))
+    # the merged file
+    if other_path and other_st:
+        OF = [f["name"] for f in frames_in_order(other_st)]
+        OE = [e for e in other_st["ecus"] if e not in st["ecus"]]
+        add("merge-deleteFrame", ("merge", other_path), ("deleteFrame", OF[-1]))
+        add("merge-renameFrame", ("merge", other_path), ("renameFrame", OF[1] + ":FNewName"))
+        add("merge-skipLongDlc", ("merge", other_path), ("skipLongDlc", "3"))
+        if OE:
+            add("merge-deleteEcu", ("merge", other_path), ("deleteEcu", OE[0]))
+    # selection by the names / numbers before the later stages change them
+    add("frames-renameFrame", ("frames", F[0] + ",FGapFrame"), ("renameFrame", F[0] + ":FNewName"))
+    add("ecus-renameEcu", ("ecus", e0), ("renameEcu", e0 + ":ENewName"))
+    add("ecus-deleteEcu", ("ecus", e0 + ",EGapOnly"), ("deleteEcu", e0))
+    return [c for c in cs if c[1][1] != "" or c[1][0] in SWITCHES]
+
+
 QUICK_PAIR_SET = ["ecus", "frames", "renameEcu", "deleteEcu", "renameFrame", "deleteFrame", "frameIdIncrement", "changeFrameId",
                   "skipLongDlc", "cutLongFrames", "deleteSignal", "deleteObsoleteEcus"]
 
@@ -1031,6 +1141,17 @@ def tiny_opts(rng, db, pdu=False):
         else:
             a = ""
         return (k, a)
+    if not pdu and db.frames and rng.random() < 0.3:
+        f = rng.choice(db.frames)
+        t = rng.choice([f.size, max(0, f.size - 1), f.size + 1])
+        return rng.choice([
+            [("skipLongDlc", str(t)), ("recalcDLC", rng.choice(["force", "max"]))],
+            [("recalcDLC", "force"), ("cutLongFrames", str(t))],
+            [("cutLongFrames", str(t)), ("skipLongDlc", str(max(0, t - 1)))],
+            [("unsetFrameFd", f.name), ("setFrameFd", f.name)],
+            [("changeFrameId", "%d:%d" % (f.arbitration_id.id + 1, 3)), ("frameIdIncrement", "1")],
+            [("addFrameReceiver", f.name + ":E9"), ("skipLongDlc", str(t))],
+        ])
     o = [one()]
     if rng.random() < 0.4:
         p = one()
@@ -1266,6 +1387,54 @@ def _run(chk, rng, thorough, ok, C, R, tmp):
                 chk.violation(key, "--%s --%s: %s" % (a, b, fail[1]), replay_input(inp, opts), fail[2], fail[3])
             tie_direct(in_db, opts, res["fn"], dict(input=inp["idx"], options=opts))
 
+    # ---- interacting pairs: every pair of stages whose order can matter, with arguments for which it does ----
+    def rest_of(x):
+        return {k: v for k, v in x.items() if not k.startswith("_")}
+    for inp in inputs:
+        in_db = R.load(inp["path"])
+        for kind, first, second in interaction_cases(inp["st"], inp["other_st"], inp["other_path"]):
+            for opts in ([first, second], [second, first]):            # both orders on the command line, one expected result
+                chk.count("interaction")
+                if "compressFrame" in (first[0], second[0]):
+                    fail, sensitive, res = judge_compress(chk, R, inp, opts)
+                    exp = None
+                else:
+                    fail, nontrivial, res, exp = judge(inp, opts, 1)
+                    sensitive = None
+                    if exp is not None:
+                        # what the two stages would give the other way round (the later one first): different = order-sensitive
+                        try:
+                            st2 = rest_of(oracle(inp["st"], [second], [inp["other_st"]]))
+                            rev = finalize(rest_of(oracle(st2, [first], [inp["other_st"]])))
+                            fwd = finalize(rest_of(exp))
+                            sensitive = any(matgen.diff(view(fwd)[part], view(rev)[part])
+                                            for part in ("frames", "frame_order", "ecus", "free_list", "defines"))
+                        except Silent:
+                            sensitive = None
+                if sensitive is None:
+                    chk.count("interaction-%s-undetermined" % kind)
+                    sensitive = False
+                    chk.case(("interaction", inp["idx"], kind, opts[0][0]), False)
+                    if fail is None:
+                        tie_direct(in_db, opts, res["fn"], dict(input=inp["idx"], interaction=kind, options=opts))
+                        continue
+                chk.count("interaction-%s-%s" % (kind, "order-sensitive" if sensitive else "commuting"))
+                chk.case(("interaction", inp["idx"], kind, opts[0][0]), sensitive)
+                if fail is not None:
+                    a, b = opts[0][0], opts[1][0]
+                    key = fail[0] if fail[0] in ("cli-vs-function", "cli-option-missing") else "pair-%s-%s" % (a, b)
+                    if fail[0] not in ("cli-vs-function", "cli-option-missing"):
+                        for m in (first, second):
+                            if m[0] == "compressFrame":
+                                f1 = judge_compress(chk, R, inp, [m])[0]
+                            else:
+                                f1 = judge(inp, [m], 0)[0]
+                            if f1 is not None and f1[0] not in ("cli-vs-function", "cli-option-missing"):
+                                key = "opt-%s-effect" % m[0]
+                                break
+                    chk.violation(key, "--%s --%s: %s" % (a, b, fail[1]), replay_input(inp, opts), fail[2], fail[3])
+                tie_direct(in_db, opts, res["fn"], dict(input=inp["idx"], interaction=kind, options=opts))
+
     # ---- the command line knows every option convert() implements ----
     for opt in PIPELINE_ORDER:
         chk.case(("declared", opt), True)
@@ -1434,32 +1603,55 @@ def _run(chk, rng, thorough, ok, C, R, tmp):
             chk.tie_break("convert-shard", short(shard[i][1], 400), "vm_compute differs", short(shard[i][2], 400))
 
 
-def judge_compress(chk, R, inp, arg):
-    """--compressFrame: 'remove gaps between signals' - only start bits of the named frames' signals may change (what the
-    compression itself guarantees is C16's subject)"""
+def judge_compress(chk, R, inp, opts):
+    """--compressFrame (alone or with other options): 'remove gaps between signals' - only start bits of the named frames'
+    signals may change (what the compression itself guarantees is C16's subject).  The stages before compressFrame are applied
+    by the oracle, the start bits of the frames compressFrame names are taken from the output, the stages after it (recalcDLC)
+    are applied by the oracle again: a length recalculated BEFORE the compression shows.
+    returns (failure | None, the compression changed what a later stage computes / moved something, results)"""
+    if isinstance(opts, str):
+        opts = [("compressFrame", opts)]
     st = inp["st"]
-    res = {how: R.run(inp["path"], [("compressFrame", arg)], how) for how in ("fn", "cli")}
+    arg = [a for k, a in opts if k == "compressFrame"][0]
+    before = [o for o in opts if KIND[o[0]] < KIND["compressFrame"]]
+    after = [o for o in opts if KIND[o[0]] > KIND["compressFrame"]]
+    res = {how: R.run(inp["path"], opts, how) for how in ("fn", "cli")}
     fn, cl = res["fn"], res["cli"]
     if fn["status"] != cl["status"] or fn.get("bytes") != cl.get("bytes"):
         return ("cli-vs-function", "the command line entry point and convert() disagree", "same result",
                 "%s / %s" % (fn.get("exc"), cl.get("exc"))), False, res
     if fn["status"] != "ok":
         return ("effect", "conversion failed", "documented effect", "%s %s" % (fn.get("exc"), fn.get("msg"))), False, res
-    e = view(finalize(st))
-    o = view(fn["nf"])
+    try:
+        e = oracle(st, before, [inp["other_st"]])
+    except Silent:
+        return None, False, res
+    e = {k: v for k, v in e.items() if not k.startswith("_")}
+    o = fn["nf"]
+    by_name = {f["name"]: f for f in o["frames"].values()}
     changed = False
-    for k, f in e["frames"].items():
+    lengths_before = {f["name"]: min_len(f) for f in e["frames"].values()}
+    for f in e["frames"].values():
         hit = any(glob_oracle(p, f["name"]) for p in arg.split(","))
-        for n, s in f["signals"].items():
-            so = o["frames"].get(k, {}).get("signals", {}).get(n)
-            if so is not None and so["start"] != s["start"]:
-                changed = True
+        fo = by_name.get(f["name"])
+        for n, sg in f["signals"].items():
+            so = (fo or {}).get("signals", {}).get(n)
+            if so is not None and so["start"] != sg["start"]:
                 if hit:
-                    s["start"] = so["start"]
-    d = matgen.diff(e, o)
+                    sg["start"] = so["start"]
+                    changed = True
+    moved = changed
+    if after:
+        for k, a in sorted(after, key=lambda oa: KIND[oa[0]]):
+            e = oracle_one(e, k, a, [inp["other_st"]])
+        # order-sensitive: the length a later stage computes differs from the one it would have computed before compressing
+        changed = any(min_len(f) != lengths_before[f["name"]] for f in e["frames"].values() if f["name"] in lengths_before)
+    d = matgen.diff(view(finalize(e)), view(o))
     if d:
-        return ("effect", "something other than start bits of the named frames changed", [list(map(str, x))[:3] for x in d[:6]], "fn"), changed, res
-    return None, changed, res
+        return ("effect", "output differs from: the other options' documented effect + only start bits of the compressed frames moved"
+                          " (%d difference(s))" % len(d),
+                {x[0]: short(x[1], 300) for x in d[:6]}, dict(via="convert()", **{x[0]: short(x[2], 300) for x in d[:6]})), changed, res
+    return None, (changed if after else moved), res
 
 
 def pdu_search(chk, C, db, opts, r):
